@@ -6,7 +6,7 @@ package main
 // random statements follow and may use the variables the seed declared. Every statement still goes through
 // the specification model (g.try), so a seed that would be ill-typed or panic early is simply dropped.
 
-const nShapes = 9
+const nShapes = 11
 
 func iv(n int) Val                { return Val{K: "i", N: n} }
 func vx(x int) *LExp              { return &LExp{K: "v", X: x} }
@@ -323,6 +323,52 @@ func (g *gen) seedShape(k int) (ended bool) {
 			if l := intIn(g, dx(vx(q)), E); l != nil {
 				g.top(&SOp{K: "op", L: l, C: 100 * (1 + g.pick(5))}, false)
 			}
+		}
+	case 9:
+		// F08-7: receive into an aliased variable, an element, a field and a pointee
+		T := pick("int", "P", "[2]int", "Q")
+		x, ok := g.defLit(T)
+		if !ok {
+			return
+		}
+		p := g.fresh()
+		if kept, _ := g.top(&SOp{K: "def", X: p, T: "*" + T.Src, R: &RExp{K: "adr", T: "*" + T.Src, L: vx(x)}}, false); !kept {
+			return
+		}
+		aT := ty("[2]" + T.Src)
+		a, ok := g.defLit(aT)
+		if !ok {
+			return
+		}
+		g.top(&SOp{K: "rcv", L: vx(x), T: T.Src, R: g.freshVal(T)}, false)
+		g.top(&SOp{K: "rcv", L: ix(vx(a), g.pick(2)), T: T.Src, R: ldr(T.Src, vx(x))}, false)
+		if l := intIn(g, vx(p), T); l != nil && T.K != "int" {
+			g.top(&SOp{K: "rcv", L: l, T: "int", R: &RExp{K: "lit", T: "int", V: ptrVal(iv(100 + g.pick(100)))}}, false)
+		}
+		g.top(&SOp{K: "rcv", L: dx(vx(p)), T: T.Src, R: ldr(T.Src, ix(vx(a), g.pick(2)))}, false)
+	case 10:
+		// F04-14: `v, ok := e.(T)` in a loop body, holding and failing, `&v` kept
+		T := pick("int", "P", "[2]int")
+		src, n, ok := g.intSlice()
+		if !ok {
+			return
+		}
+		psT := "[]*" + T.Src
+		ps := g.fresh()
+		if kept, _ := g.top(&SOp{K: "def", X: ps, T: psT, R: &RExp{K: "mks", T: psT}}, false); !kept {
+			return
+		}
+		op := Op{K: "rng", Src: vx(src), I: g.fresh(), V: g.fresh(), ET: "int", SK: "slice"}
+		x, okv := g.fresh(), g.fresh()
+		op.Body = append(op.Body, SOp{K: "as2", IsDef: true, X: x, Ok: okv, T: T.Src, R: g.freshVal(T), Succ: g.chance(0.6)})
+		op.Body = append(op.Body, SOp{K: "app", L: vx(ps), T: psT, S: ldr(psT, vx(ps)), Args: []RExp{{K: "adr", T: "*" + T.Src, L: vx(x)}}})
+		// the assignment form on the same variables, the other outcome
+		op.Body = append(op.Body, SOp{K: "as2", X: x, Ok: okv, T: T.Src, R: g.freshVal(T), Succ: g.chance(0.4)})
+		if kept, _ := g.try(op, false); !kept {
+			return
+		}
+		if l := intIn(g, dx(ix(vx(ps), g.pick(n))), T); l != nil {
+			g.top(&SOp{K: "op", L: l, C: 100 * (1 + g.pick(5))}, false)
 		}
 	default:
 		// F04-11: `&[n]T{…}` evaluated at each iteration: a new array each time
